@@ -16,7 +16,9 @@
 
    Statements only. *)
 From JV Require Import Bytes Tables BinPrim BinTape BinTapeWf BinTapePayload.
+From JV Require BinTapeMirror.
 From JV.proofs Require Import BinTapeWfProofs BinTapeCheckerProofs BinTapePayloadProofs.
+From JV.proofs Require BinTapeMirrorProofs.
 
 Theorem C06_bin_payloads : forall fx opt bytes t, parse fx opt bytes = Ok t -> payloads_in_input bytes t.
 Proof. exact parse_payloads. Qed.
@@ -36,22 +38,31 @@ Theorem C06_bin_payloads_step : forall fx input s s',
 Proof. exact xstep_lexes. Qed.
 Print Assumptions C06_bin_payloads_step.
 
-(* The stronger reading "every payload lexeme of the input is on the tape" is FALSE for the code
-   (optimised and reference alike): in `a = { {} x y = z }` the "only empty objects so far" repair
-   (binary/tape.rs, EQUAL in ArrayValue: chunks_exact(2) ignores the odd trailing token) truncates
-   the tape behind the container start and drops x.  Input 82 2d 01 00 03 00 03 00 04 00 87 2d
-   88 2d 01 00 8a 2d 04 00: the id 0x2d87 = 11655 at offset 10 is on no tape position.  This is why
-   [lexes] may skip whole lexemes, not just `{ } =`.  C06's wording (what IS on the tape equals the
-   input at its position) is not violated; C03's "tape mirrors the token stream" is. *)
-Theorem C06_bin_payloads_all_kept_refuted :
+(* The stronger reading "every payload lexeme of the input is on the tape" was FALSE until the fix for
+   finding L (in `a = { {} x y = z }` the "only empty objects so far" repair of binary/tape.rs -- EQUAL in
+   ArrayValue, chunks_exact(2) ignoring the odd trailing token -- truncated the tape behind the container
+   start and dropped x; the witness theorem C06_bin_payloads_all_kept_refuted stood here).  The test now
+   requires `pairs.remainder().is_empty()`, and the positive statement holds for every accepted input,
+   optimised and reference interpretation (the parsers the correspondence check runs): every token of the
+   lexer's token sequence other than `{`, `}`, `=` is a token of the tape ([untape]: the token sequence the
+   tape denotes, an Rgb token standing for the lexemes of its block).  Proof: C03's mirror theorem
+   (proofs/BinTapeMirrorProofs.v: the stream is the tape plus inserted `{ }` pairs).  [lexes] of
+   [payloads_in_input] may still skip whole lexemes by its definition; that it skips `{ } =` only is this
+   theorem. *)
+Theorem C06_bin_payloads_all_kept : forall bytes t, parse_opt bytes = Ok t \/ parse_ref bytes = Ok t ->
+  exists toks, BinTapeMirror.raw_lex bytes = Some toks /\
+    forall x, In x toks -> x <> BOpen -> x <> BClose -> x <> BEqual -> In x (BinTapeMirror.untape t).
+Proof. exact BinTapeMirrorProofs.tape_keeps_payloads. Qed.
+Print Assumptions C06_bin_payloads_all_kept.
+
+(* regression example: the former witness input keeps the id 0x2d87 = 11655 at offset 10 *)
+Example C06_bin_payloads_former_witness :
   exists t, parse_opt [130;45; 1;0; 3;0; 3;0; 4;0; 135;45; 136;45; 1;0; 138;45; 4;0]%N = Ok t /\
             parse_ref [130;45; 1;0; 3;0; 3;0; 4;0; 135;45; 136;45; 1;0; 138;45; 4;0]%N = Ok t /\
-            ~ In (TToken 11655) t.
+            In (TToken 11655) t.
 Proof.
-  eexists. split; [vm_compute; reflexivity|]. split; [vm_compute; reflexivity|].
-  cbn. intuition discriminate.
+  eexists. split; [vm_compute; reflexivity|]. split; [vm_compute; reflexivity|]. cbn. tauto.
 Qed.
-Print Assumptions C06_bin_payloads_all_kept_refuted.
 
 Theorem C06_bin_checker_sound : forall t, tape_wfb t = true -> tape_wf t.
 Proof. exact checker_sound. Qed.
